@@ -49,13 +49,13 @@ fn other_key(pool: &[KeyInfo], r: &mut Rng, avoid: &[usize]) -> usize {
 /// Inject one fault of the family relevant to `prop` into a valid scenario.
 pub(crate) fn inject(prop: &str, s: &mut Scenario, r: &mut Rng, pool: &[KeyInfo]) -> Option<Fault> {
     let kinds: &[&str] = match prop {
-        "C01" => &["caller_empty", "caller_unusable_key", "caller_unusable_key", "caller_superset", "caller_disjoint", "caller_alias", "caller_alias_described", "caller_alias_described", "owner_sig_missing", "owner_sig_corrupt", "owner_sig_mislabel", "owner_sig_duplicated", "owner_sig_duplicated_apart", "layout_tampered", "layout_command_resplit", "not_a_layout", "extra_sig", "layout_keys_refiled", "layout_keys_refiled", "none"],
+        "C01" => &["caller_empty", "caller_unusable_key", "caller_unusable_key", "caller_superset", "caller_disjoint", "caller_alias", "caller_alias_described", "caller_alias_described", "owner_sig_missing", "owner_sig_corrupt", "owner_sig_mislabel", "owner_sig_duplicated", "owner_sig_duplicated_apart", "owner_sigs_under_foreign_ids", "owner_sigs_under_foreign_ids", "layout_tampered", "layout_command_resplit", "not_a_layout", "extra_sig", "layout_keys_refiled", "layout_keys_refiled", "none"],
         "C06" => &["expired_1s", "expired_long", "expired_centuries", "expires_now", "expires_plus1", "expires_far_future", "offset_notation", "offset_expired", "sub_expired", "sub_expired_surplus", "sub_expired_surplus", "none"],
-        "C02" => &["step_without_functionaries", "step_without_functionaries", "link_removed", "link_wrong_signer", "link_mislabel", "link_tampered", "link_corrupt", "link_unauthorized", "key_not_in_table", "verifier_key_as_functionary", "verifier_key_as_functionary", "link_garbage", "link_misfiled", "link_cosigned_forgery", "cosigned_next_to_differing", "threshold_zero_nolinks", "threshold_zero_norules", "threshold_zero_norules", "threshold_zero_onelink", "threshold_raised", "link_wrong_type", "ghost_authorized_prefix", "ghost_authorized_prefix", "twin_unauthorized", "twin_unauthorized", "duplicate_step_unmet", "duplicate_step_unmet", "none"],
+        "C02" => &["step_without_functionaries", "step_without_functionaries", "link_removed", "link_wrong_signer", "link_mislabel", "link_tampered", "link_corrupt", "link_unauthorized", "key_not_in_table", "verifier_key_as_functionary", "verifier_key_as_functionary", "link_garbage", "link_misfiled", "link_cosigned_forgery", "cosigned_next_to_differing", "threshold_zero_nolinks", "threshold_zero_norules", "threshold_zero_norules", "threshold_zero_onelink", "threshold_raised", "threshold_raised", "link_wrong_type", "ghost_authorized_prefix", "ghost_authorized_prefix", "twin_unauthorized", "twin_unauthorized", "duplicate_step_unmet", "duplicate_step_unmet", "none"],
         "C07" => &["disagree_product_digest", "disagree_material_path", "disagree_extra_entry", "disagree_t1", "agree_extra_differs", "cosigned_next_to_differing", "disagree_path_spelling", "disagree_alias_entry", "disagree_algorithm_set", "disagree_algorithm_set", "disagree_empty_entry", "disagree_moved_across", "disagree_moved_across", "disagree_missing_entry", "disagree_missing_entry", "none"],
         "C13" => &["differing_links_t1", "differing_links_t1_rules", "none", "nested_namesake", "nested_namesake", "nested_namesake", "link_removed", "disagree_product_digest", "disagree_extra_entry", "cosigned_next_to_differing", "cosigned_next_to_differing", "digest_partial_agreement", "digest_partial_agreement", "sub_missing_link", "sub_rule", "sub_expired"],
-        "C08" => &["insp_exit", "insp_notfound", "insp_rule", "insp_rule_named_like_step", "pre_expired", "pre_badsig", "pre_link_removed", "pre_rule", "pre_disagree", "sub_expired", "sub_expired_surplus", "sub_expired_surplus", "sub_insp_exit_surplus", "sub_insp_exit_surplus", "sub_rule_surplus", "sub_tampered", "none"],
-        "C15" => &["no_steps", "no_steps_inner", "sub_wrong_signer", "sub_expired", "sub_missing_link", "sub_links_in_parent", "sub_rule", "sub_unauthorized_inner", "sub_tampered", "sub_insp_exit", "sub_insp_rule", "sub_dir_misnamed", "sub_dir_misnamed", "sub_misfiled", "sub_misfiled", "sub_rule_surplus", "sub_missing_link_surplus", "sub_expired_surplus", "sub_insp_exit_surplus", "none"],
+        "C08" => &["insp_exit", "insp_notfound", "insp_rule", "insp_rule_named_like_step", "pre_expired", "pre_badsig", "pre_link_removed", "pre_rule", "pre_disagree", "pre_cosigned_forgery", "pre_cosigned_forgery", "sub_expired", "sub_expired_surplus", "sub_expired_surplus", "sub_insp_exit_surplus", "sub_insp_exit_surplus", "sub_rule_surplus", "sub_tampered", "none"],
+        "C15" => &["no_steps", "no_steps_inner", "sub_wrong_signer", "sub_expired", "sub_missing_link", "sub_links_in_parent", "sub_rule", "sub_unauthorized_inner", "sub_delegator_key_as_functionary", "sub_delegator_key_as_functionary", "sub_tampered", "sub_insp_exit", "sub_insp_rule", "sub_dir_misnamed", "sub_dir_misnamed", "sub_misfiled", "sub_misfiled", "sub_rule_surplus", "sub_missing_link_surplus", "sub_expired_surplus", "sub_insp_exit_surplus", "none"],
         _ => &["none"],
     };
     let kind = *r.pick(kinds);
@@ -124,6 +124,27 @@ pub(crate) fn inject_kind(prop: &str, kind: &str, s: &mut Scenario, r: &mut Rng,
             let k = other_key(pool, r, &owners);
             s.block.sigs[0].signer = k;
             Some(("C01", "an owner signature was made by another key".into(), true))
+        }
+        "owner_sigs_under_foreign_ids" => {
+            // two trusted keys are supplied, only one of them signed - and its signature is not listed under
+            // its own id but (twice, as two entries) under the ids of two keys the caller did not supply.
+            // Not every supplied key has a valid signature: one has none, the other none that is its own.
+            let a = owners[0];
+            let b = match owners.get(1) {
+                Some(&b) => b,
+                None => {
+                    let b = other_key(pool, r, &owners);
+                    s.caller_keys.push(b);
+                    b
+                }
+            };
+            let x = other_key(pool, r, &[a, b]);
+            let y = other_key(pool, r, &[a, b, x]);
+            if kid(pool, x) == kid(pool, y) {
+                return None;
+            }
+            s.block.sigs = vec![SSig { label: x, signer: a, corrupt: false }, SSig { label: y, signer: a, corrupt: false }];
+            Some(("C01", "of two supplied keys one did not sign at all, and the other's signature is listed only under the ids of keys that were not supplied (twice)".into(), true))
         }
         "owner_sig_duplicated" | "owner_sig_duplicated_apart" => {
             // one owner did not sign; another owner's (valid) signature appears twice instead,
@@ -419,7 +440,7 @@ pub(crate) fn inject_kind(prop: &str, kind: &str, s: &mut Scenario, r: &mut Rng,
             let name = l.steps[si].name.clone();
             Some(("C02", format!("a step authorizes no key at all; its links are signed by keys of the layout's table (step {})", name), true))
         }
-        "link_cosigned_forgery" => {
+        "link_cosigned_forgery" | "pre_cosigned_forgery" => {
             // threshold 2, functionaries A and B: A's file carries a bogus entry under A's id plus a
             // valid signature by B; B's own link is honest. Only one distinct key signed validly.
             let l = layout_mut(&mut s.block)?.clone();
@@ -442,7 +463,7 @@ pub(crate) fn inject_kind(prop: &str, kind: &str, s: &mut Scenario, r: &mut Rng,
                 }
                 blk.sigs = vec![SSig { label: a, signer: b, corrupt: false }, SSig { label: b, signer: b, corrupt: false }];
             }
-            Some(("C02", format!("a link filed under one functionary carries only another functionary's valid signature (step {})", l.steps[si].name), true))
+            Some((if kind == "pre_cosigned_forgery" { "C08" } else { "C02" }, format!("a link filed under one functionary carries only another functionary's valid signature (step {})", l.steps[si].name), true))
         }
         "cosigned_next_to_differing" => {
             // functionaries A and B of one step each filed a link; A's file is co-signed (validly) by B,
@@ -621,7 +642,13 @@ pub(crate) fn inject_kind(prop: &str, kind: &str, s: &mut Scenario, r: &mut Rng,
             let name = l.steps[si].name.clone();
             let n = evidence_files(&s.dir, &name).len() as u32;
             let l = layout_mut(&mut s.block)?;
-            l.steps[si].threshold = n + 1;
+            // (one more than there is evidence - or far more: around the ends of the 31-, 32-bit ranges)
+            l.steps[si].threshold = match r.below(6) {
+                0 => u32::MAX,
+                1 => 3_000_000_000,
+                2 => (1u32 << 31) + 1 + r.below(3) as u32,
+                _ => n + 1,
+            };
             Some(("C02", format!("the threshold of a step exceeds the number of signed links ({})", name), true))
         }
         // ---------------------------------------------------------------- C07 / C13
@@ -668,6 +695,30 @@ pub(crate) fn inject_kind(prop: &str, kind: &str, s: &mut Scenario, r: &mut Rng,
                             let n = lk2.prods.len();
                             lk2.prods[n - 1].1 = 21;
                         }
+                    }
+                }
+            }
+            // a functionary who hands in nothing usable - no file, or one whose signature is broken - while
+            // enough others do: the dissent among those who did hand in a link is there all the same
+            // (preferably a functionary the step lists before the dissenter)
+            let mut silenced: Option<String> = None;
+            {
+                let spare: Vec<usize> = idx.iter().cloned().filter(|&f| f != fi && Some(f) != also).collect();
+                if want_t2 && idx.len() - 1 >= (l.steps[si].threshold as usize).max(2) && !spare.is_empty() && r.chance(1, 2) {
+                    let pos = |f: usize| {
+                        let short = &s.dir.files[f].0[l.steps[si].name.len() + 1..s.dir.files[f].0.len() - 5];
+                        l.steps[si].pubkeys.iter().position(|&k| prefix8(pool, k) == short).unwrap_or(usize::MAX)
+                    };
+                    let before: Vec<usize> = spare.iter().cloned().filter(|&f| pos(f) < pos(fi)).collect();
+                    let f = if !before.is_empty() && r.chance(3, 4) { *r.pick(&before) } else { *r.pick(&spare) };
+                    if r.chance(1, 2) {
+                        if let SFile::Block(b) = &mut s.dir.files[f].1 {
+                            for sg in &mut b.sigs {
+                                sg.corrupt = true;
+                            }
+                        }
+                    } else {
+                        silenced = Some(s.dir.files[f].0.clone());
                     }
                 }
             }
@@ -774,6 +825,9 @@ pub(crate) fn inject_kind(prop: &str, kind: &str, s: &mut Scenario, r: &mut Rng,
                 } else {
                     return None;
                 }
+            }
+            if let Some(gone) = silenced {
+                s.dir.files.retain(|f| f.0 != gone);
             }
             match kind {
                 "agree_extra_differs" | "disagree_t1" | "differing_links_t1" | "differing_links_t1_rules" => {
@@ -1028,6 +1082,33 @@ pub(crate) fn inject_kind(prop: &str, kind: &str, s: &mut Scenario, r: &mut Rng,
                         s.dir.subs[sp].0 = r.pick(&cands).clone();
                         desc = format!("the sub-layout's links are in `{}` instead of its own sub-directory `{}`", s.dir.subs[sp].0, subname);
                     }
+                    "sub_delegator_key_as_functionary" => {
+                        // an inner step lists the id of the key the sub-layout itself is verified with (the
+                        // delegating functionary's) - a key the sub-layout's own key table does not define;
+                        // the step's only evidence is validly signed by that key
+                        let sp = subdir_pos?;
+                        let il = layout_mut(b)?;
+                        if il.steps.is_empty() || il.steps.iter().any(|st| st.pubkeys.iter().any(|&k| prefix8(pool, k) == prefix8(pool, owner))) {
+                            return None;
+                        }
+                        il.keys.retain(|&k| kid(pool, k) != kid(pool, owner));
+                        il.steps[0].pubkeys.push(owner);
+                        il.steps[0].threshold = 1;
+                        let inner_step = il.steps[0].name.clone();
+                        let idx = evidence_files(&s.dir.subs[sp].1, &inner_step);
+                        let i = *idx.first()?;
+                        if !matches!(&s.dir.subs[sp].1.files[i].1, SFile::Block(ib) if matches!(ib.meta, SMeta::Link(_))) {
+                            return None;
+                        }
+                        if let SFile::Block(ib) = &mut s.dir.subs[sp].1.files[i].1 {
+                            ib.sigs = vec![SSig { label: owner, signer: owner, corrupt: false }];
+                        }
+                        for &j in idx.iter().skip(1).rev() {
+                            s.dir.subs[sp].1.files.remove(j);
+                        }
+                        s.dir.subs[sp].1.files[i].0 = format!("{}.{}.link", inner_step, prefix8(pool, owner));
+                        desc = "an inner step's only link is signed by the delegating functionary's key, which the step lists but the sub-layout's key table does not define".into();
+                    }
                     "sub_missing_link" | "sub_links_in_parent" | "sub_unauthorized_inner" => {
                         let il = layout_mut(b)?.clone();
                         let sp = subdir_pos?;
@@ -1078,14 +1159,129 @@ pub(crate) fn inject_kind(prop: &str, kind: &str, s: &mut Scenario, r: &mut Rng,
     }
 }
 
+/// C03 end to end: the artifact rules of steps and inspections inside whole verifications. A scenario that
+/// verifies is given other rules on one of its items - MATCH against another step or inspection (one the
+/// layout lists earlier or later), followed by a rule that makes the outcome of the MATCH decisive - and
+/// verified again: the decision must be the one the specification's algorithm gives over the links that
+/// were recorded for ALL steps and inspections (asked from the Lean model, whose pipeline is proven equal
+/// to the specification in Lemmas/VerifySpec.lean).
+pub fn rules_lane(sink: &mut Sink, model: &mut crate::model::Model, r: &mut Rng, n: usize) {
+    use in_toto::models::rule::Artifact;
+    let pool = key_pool_twins(2);
+    let mut insp_counter = 700_000usize;
+    let (mut done, mut tries) = (0, 0);
+    while done < n && tries < 6 * n {
+        tries += 1;
+        let mut g = Gen { r: &mut *r, pool: &pool, insp_counter, force_delegate: false, multi_party: false, co_delegate: false, now: base_now(), reuse_keys: vec![], inner_insp_always: false };
+        let mut s = g.valid(0, true);
+        insp_counter = g.insp_counter;
+        s.now = base_now();
+        {
+            let l = match layout_mut(&mut s.block) {
+                Some(l) => l,
+                None => continue,
+            };
+            l.expires = base_now() + Duration::days(30);
+            // at least two inspections; their commands leave the files alone now and then
+            while l.inspect.len() < 2 {
+                let nme = format!("insp{}", insp_counter);
+                insp_counter += 1;
+                let action = *r.pick(&["", "", "", "echo new > created.txt;", "echo more >> foo;"]);
+                l.inspect.push(SInsp { name: nme.clone(), mats: vec![ArtifactRule::Allow(vp("*"))], prods: vec![ArtifactRule::Allow(vp("*"))], script: Some(script("", &nme, 0, action)) });
+            }
+        }
+        let base = crate::e2e::run(&pool, &s);
+        if !base.ok {
+            sink.stat("rules-e2e/base-refused");
+            continue;
+        }
+        // the edit
+        let (what, edited_name, from_name) = {
+            let l = layout_mut(&mut s.block).unwrap();
+            let items: Vec<(bool, usize, String)> = l.steps.iter().enumerate().map(|(i, x)| (false, i, x.name.clone())).chain(l.inspect.iter().enumerate().map(|(i, x)| (true, i, x.name.clone()))).collect();
+            // (mostly an inspection is edited - and mostly against another inspection)
+            let insps: Vec<&(bool, usize, String)> = items.iter().filter(|x| x.0).collect();
+            let x = if r.chance(3, 4) { (*r.pick(&insps)).clone() } else { r.pick(&items).clone() };
+            let others: Vec<&(bool, usize, String)> = items.iter().filter(|y| y.2 != x.2 && (y.0 || !r.chance(1, 2))).collect();
+            let mut y = if others.is_empty() { x.clone() } else { (*r.pick(&others)).clone() };
+            // (every other time: an inspection against one the layout lists after it)
+            let pos_x = items.iter().position(|i| i.2 == x.2).unwrap_or(0);
+            let later_insps: Vec<&(bool, usize, String)> = items.iter().skip(pos_x + 1).filter(|i| i.0).collect();
+            if x.0 && !later_insps.is_empty() && r.chance(1, 2) {
+                y = (*r.pick(&later_insps)).clone();
+            }
+            // (half of the time the file every scenario has - `foo` - decides: consumed by the MATCH or refused)
+            let foo_decides = r.chance(1, 2);
+            let pattern = if foo_decides { vp(*r.pick(&["*", "foo", "fo?"])) } else { vp(*r.pick(&["*", "*", "foo", "out0", "*.link"])) };
+            let with = if r.chance(1, 2) { Artifact::Materials } else { Artifact::Products };
+            let mut rules = vec![ArtifactRule::Match { pattern, in_src: None, with, in_dst: None, from: y.2.clone() }];
+            match if foo_decides { 2 } else { r.below(4) } {
+                0 | 1 => rules.push(ArtifactRule::Disallow(vp("*"))),
+                2 => {
+                    rules.push(ArtifactRule::Disallow(vp("foo")));
+                    rules.push(ArtifactRule::Allow(vp("*")));
+                }
+                _ => rules.push(ArtifactRule::Allow(vp("*"))),
+            }
+            let on_mats = r.chance(1, 2);
+            match (x.0, on_mats) {
+                (true, true) => l.inspect[x.1].mats = rules,
+                (true, false) => l.inspect[x.1].prods = rules,
+                (false, true) => l.steps[x.1].mats = rules,
+                (false, false) => l.steps[x.1].prods = rules,
+            }
+            let later = items.iter().position(|i| i.2 == y.2) > items.iter().position(|i| i.2 == x.2);
+            (format!("{}-matches-{}-listed-{}", if x.0 { "inspection" } else { "step" }, if y.0 { "inspection" } else { "step" }, if later { "later" } else { "earlier" }), x.2.clone(), y.2.clone())
+        };
+        let out = crate::e2e::run(&pool, &s);
+        sink.op(&out.op, &out.answer, true);
+        // what the inspections record does not depend on the rules: it is what they recorded when the
+        // scenario was verified with its original rules (then all of them ran). The specification is asked
+        // about the edited layout over THOSE links - a verification that stops early, or applies rules
+        // before every inspection has run, leaves fewer links behind than the specification speaks about
+        let spec_op = match (out.op.rfind(" R "), base.op.rfind(" R ")) {
+            (Some(a), Some(b)) => format!("{}{}", &out.op[..a], &base.op[b..]),
+            _ => out.op.clone(),
+        };
+        if out.ok && spec_op != out.op {
+            // (an accepted verification ran every inspection: they recorded what they recorded before)
+            sink.stat("rules-e2e/recorded-links-differ-from-first-run");
+            continue;
+        }
+        let spec = model.ask(&spec_op);
+        let spec_ok = spec.starts_with("ok");
+        sink.stat(&format!("rules-e2e/{}/impl-{}/spec-{}", what, if out.panicked { "panic" } else if out.ok { "ok" } else { "err" }, if spec_ok { "ok" } else { "err" }));
+        sink.oracle(!out.panicked, "verification panicked", &out.op);
+        sink.oracle(
+            out.ok == spec_ok,
+            &format!(
+                "the rules of `{}` (MATCH ... FROM `{}`) are decided differently inside a verification than the specification's algorithm decides them over the links recorded for all steps and inspections (verification {}, specification {})",
+                edited_name,
+                from_name,
+                if out.ok { "accepts" } else { "rejects" },
+                if spec_ok { "accepts" } else { "rejects" }
+            ),
+            &out.op,
+        );
+        done += 1;
+    }
+    sink.stat(&format!("rules-e2e/scenarios={}", done));
+}
+
 pub fn run(cfg: &Cfg, prop: &str) {
     let mut sink = Sink::new(&cfg.out);
-    let mut r = Rng::new(cfg.seed ^ (prop.bytes().fold(0u64, |a, b| a * 131 + b as u64)));
-    let pool = key_pool_twins(2);
     let n = match (prop, cfg.thorough) {
         (_, true) => 6000,
         (_, false) => 500,
     };
+    run_into(&mut sink, cfg, prop, n);
+    sink.finish(&cfg.out, serde_json::json!({}));
+}
+
+/// `n` scenarios of the catalogue of `prop`, with its oracles, into a sink the caller owns
+pub fn run_into(sink: &mut Sink, cfg: &Cfg, prop: &str, n: usize) {
+    let mut r = Rng::new(cfg.seed ^ (prop.bytes().fold(0u64, |a, b| a * 131 + b as u64)));
+    let pool = key_pool_twins(2);
     let mut insp_counter = 0usize;
     let mut alone: Vec<(Scenario, String, String)> = vec![];
     for i in 0..n {
@@ -1191,7 +1387,7 @@ pub fn run(cfg: &Cfg, prop: &str) {
         }
         if prop == "C08" {
             // a failure before the inspection stage must leave no trace of an inspection
-            let pre = fatal.iter().any(|f| f.1.contains("expired") || f.1.contains("owner signature") || f.1.contains("required link") || f.1.contains("product rule of a step") || f.1.contains("disagree"));
+            let pre = fatal.iter().any(|f| f.1.contains("expired") || f.1.contains("owner signature") || f.1.contains("required link") || f.1.contains("product rule of a step") || f.1.contains("disagree") || f.1.contains("carries only another functionary"));
             if pre {
                 sink.oracle(out.events.iter().all(|e| !e.starts_with('|')), "an inspection of the layout ran although verification failed before the inspection stage", &replay);
             }
@@ -1320,7 +1516,33 @@ pub fn run(cfg: &Cfg, prop: &str) {
     }
     if prop == "C06" {
         // how an expiry text becomes an instant: chrono's reader and the layout reader against Model/Time.lean
-        crate::timegen::run_time_cases(&mut sink, &mut r, if cfg.thorough { 20000 } else { 1500 });
+        crate::timegen::run_time_cases(sink, &mut r, if cfg.thorough { 20000 } else { 1500 });
     }
-    sink.finish(&cfg.out, serde_json::json!({}));
+    // ---- a crowd: one delegating scenario (a chain of sub-layouts three deep, no inspections), verified by
+    //      many threads at the very same time, again and again - each of them answers what one alone answers
+    if prop == "C13" {
+        let mut crowds = 0;
+        let mut tries = 0;
+        while crowds < (if cfg.thorough { 12 } else { 3 }) && tries < 60 {
+            tries += 1;
+            let mut g = Gen { r: &mut r, pool: &pool, insp_counter: 0, force_delegate: true, multi_party: false, co_delegate: false, now: base_now(), reuse_keys: vec![], inner_insp_always: false };
+            let s = g.valid(3, false);
+            // (how deep the chain of delegations of this scenario really is)
+            fn depth(d: &SDir) -> usize {
+                d.subs.iter().map(|x| 1 + depth(&x.1)).max().unwrap_or(0)
+            }
+            if depth(&s.dir) < 3 || crate::e2e::has_inspections(&s.block, &s.dir) {
+                continue;
+            }
+            let (alone, different) = crate::e2e::run_crowd(&pool, &s, 16, 12);
+            if !alone.starts_with("ok") {
+                continue;
+            }
+            crowds += 1;
+            sink.stat(&format!("crowd/{}", if different.is_empty() { "all-as-alone" } else { "DIFFERENT" }));
+            let replay = format!("crowd of 16 threads x 12 rounds; layout {} ; alone: {} ; in the crowd also: {}", crate::proto::hex(crate::e2e::block_text(&pool, &s.block).as_bytes()), alone.chars().take(40).collect::<String>(), different.first().cloned().unwrap_or_default());
+            sink.oracle(different.is_empty(), "verified by many threads at the same time, the same input (a chain of sub-layouts) gets a different result than verified alone", &replay);
+        }
+        sink.stat(&format!("crowd/scenarios={}", crowds));
+    }
 }
